@@ -130,6 +130,10 @@ class Parameter:
         if lower <= prop <= self.upper:
             return prop
         width = self.upper - lower
+        if not isfinite(width):
+            # a single finite limit: the periodic fold needs a finite width, so the
+            # proposal is mirrored in the limit it crossed
+            return 2 * lower - prop if prop < lower else 2 * self.upper - prop
         d = prop - lower
         n = (d // width) % 2
         if n == 0:
